@@ -246,16 +246,19 @@ def r4(ctx: Ctx) -> None:
             continue
         sl = [s for s in subterms(strip_ver(p.exit[1])) if s[0] == "slice"] + [s for c, _, _ in p.conds for s in subterms(strip_ver(c)) if s[0] == "slice"]
         ok = bool(sl)
+        guarded_t = any(_is_future_guard(c, pol, ("sym", "time")) for c, pol, _ in p.conds)
         for s in sl:
             if s[1] is not None or s[3] is not None or s[2] is None:
                 ok = False
                 continue
-            hi = ("bin", "-", s[2], ("const", 1))
-            d = diff_const(hi, now)
-            if d is not None and d == 0:
+            # the slice [: hi] reads slots 0 .. hi-1; need hi - 1 <= now
+            d_now = diff_const(s[2], now)
+            d_t = diff_const(s[2], ("sym", "time"))
+            if d_now is not None and d_now <= 1:
                 continue
-            if not (key(s[2]) == "(time + 1)" and any(_is_future_guard(c, pol, ("sym", "time")) for c, pol, _ in p.conds)):
-                ok = False
+            if d_t is not None and d_t <= 1 and guarded_t:
+                continue
+            ok = False
         ctx.check(ok, f, f.node, "VWAP sums only slots up to a time that is not in the future", "[: t+1] with t = now or `t > self.time -> raise`", p.describe()[:200])
     # getter table
     for g, (series, allow) in GETTERS.items():
